@@ -252,7 +252,7 @@ def stepLine (s : St) (toks : List String) : St × String :=
     | .error e => (s, errName e)
     | .ok (o, _, h) => ({ s with heap := h, stack := ⟨o, 1⟩ }, line "void" h o.show)
   | "msort" =>
-    match mergeSort f h with
+    match mergeSort f (if a1 < 1 then 1 else if a1 > 64 then 64 else a1.toNat) h with
     | .error e => (s, errName e)
     | .ok (ok, h) => ({ s with heap := h }, line (rb ok) h (if ok then "sorted" else "-"))
   -- dsaa: node containers
